@@ -39,7 +39,7 @@ def word(rng, extra=""):
 
 
 def text(rng, uniq, special=True, dots=False):
-    parts = [word(rng, (" %=" if special else "") + ("." if dots else "")).strip() or "x" for _ in range(rng.randrange(1, 4))]
+    parts = [word(rng, (" %=#" if special else "") + ("." if dots else "")).strip() or "x" for _ in range(rng.randrange(1, 4))]
     t = " ".join(parts)
     t = " ".join(t.split())          # no leading / trailing / double blanks (INI trimming is lexical)
     t = t.replace(" ;", ";").replace("= ", "=")
@@ -232,7 +232,8 @@ def render_var(lines, section, v, otype=None, extra=None):
         if v[fld]["k"] != "none":
             lines.append(f"{key}={render_tok(v[fld], v['dt'])}")
     if v["pdo"] >= 0:
-        lines.append(f"PDOMapping={v['pdo']}")
+        # (decimal and hex spellings of the flag; the library's own writer spells it 0x0 / 0x1)
+        lines.append(f"PDOMapping={v['pdo']}" if len(lines) % 2 else f"PDOMapping=0x{v['pdo']:X}")
     if v["factor"] != [1, 1]:
         lines.append(f"Factor={v['factor'][0] / v['factor'][1]!r}")
     if v["factor"] != [1, 1] or v["unit"]:
@@ -524,6 +525,9 @@ def build_code_od(rng, nobj=10):
             v.unit = rng.choice(["%", "deg C", "V"])
             if rng.random() < 0.5:
                 v.description = text(rng, rng.randrange(100), special=False)
+        if v.description and len(v.description) % 3 == 0:
+            # a description of several lines
+            v.description += "\nsecond line " + v.description[:5].strip() + "\nthird"
         return v
     while len(used) < nobj:
         idx = rng.choice([rng.randrange(0x1002, 0x2000), rng.randrange(0x2000, 0x6000), rng.randrange(0x6000, 0xA000),
@@ -548,7 +552,9 @@ def build_code_od(rng, nobj=10):
             for s in range(1, n + 1):
                 obj.add_member(mkvar(text(rng, f"m{uniq}_{s}"), idx, s, dt if kind == "arr" else rng.choice(ALL_TYPES)))
             od.add_object(obj)
-    od.comments = "\n".join(text(rng, i, special=False) for i in range(rng.choice([0, 1, 2, 3, 10, 11, 25])))
+    # (every fourth line is empty: paragraphs)
+    od.comments = "\n".join("" if i % 4 == 2 and i + 1 < n_c else text(rng, i, special=False)
+                            for n_c in [rng.choice([0, 1, 2, 3, 10, 11, 25])] for i in range(n_c))
     di = od.device_information
     for key, kind in DEVINFO:
         if rng.random() < 0.7:
